@@ -30,6 +30,7 @@ import (
 
 type verifMsgpCase struct {
 	pkg    *msgpmon.Package
+	pi     int
 	ti, ci int
 	obj    msgpmon.Obj
 	gen    string
@@ -86,15 +87,15 @@ func RunC40(t *testing.T, cd *Codec) {
 		"and the reflection encoder, decoded by both decoders, re-encoded and compared; ids (txid, block hash) derived from the struct, from the re-decoded bytes and from the reflection encoding are compared; " +
 		"distinct = distinct (type, msgpack token shape of the encoding)")
 	c.Assume("go-codec with the canonical handle of protocol/codec.go is the reference encoder named by the property; types holding msgp.Raw are compared on the msgp path only (upstream: go-codec cannot reproduce a spliced Raw)")
-	n := c.N(200, 20000)
+	n := c.N(200, 10000) // instances per type
 	if c.Lane != "plain" {
-		n = c.N(100, 2000)
+		n = c.N(100, 600)
 	}
 	registry := msgpmon.Packages()
 	if len(registry) == 0 {
 		c.Harness("no package registered (generated verif_c40gen.go files not injected?)")
 	}
-	var rawNames, unsupported []string
+	var rawNames []string
 	ntypes := 0
 	perPkg := map[string]any{}
 	for _, p := range registry {
@@ -135,19 +136,7 @@ func RunC40(t *testing.T, cd *Codec) {
 							cs.obj, cs.gen = o.(msgpmon.Obj), "upstream"
 						}
 					}
-					if cs.obj == nil {
-						r := c.Rand(40, uint64(pi), uint64(ti), uint64(ci))
-						g := &verifMsgpGen{r: r, ix: verifMsgpIndexOf(p), budget: 40 + r.Intn(200), feat: cs.feat}
-						o := ty.New()
-						g.fill(reflect.ValueOf(o).Elem(), nil, nil, nil, 0)
-						if isRaw {
-							verifMsgpFixRaw(reflect.ValueOf(o).Elem(), r)
-						}
-						if g.unsupported != "" && ci < 2 {
-							unsupported = append(unsupported, p.Path+"."+ty.Name+": "+g.unsupported)
-						}
-						cs.obj, cs.gen = o, "boundary"
-					}
+					cs.pi = pi // boundary cases are generated by the worker (pure function of seed and indices)
 					cases <- cs
 				}
 			}
@@ -175,7 +164,6 @@ func RunC40(t *testing.T, cd *Codec) {
 	}
 	wg.Wait()
 	c.Extra("reflect_comparison_not_applicable_msgp_raw", rawNames)
-	c.Extra("generator_unsupported_kinds", unsupported)
 	c.Require("instances", int64(ntypes*n/2))
 	c.Require("roundtrips_ok", int64(ntypes*n/4))
 	c.Require("boundary_features", 1)
@@ -184,6 +172,20 @@ func RunC40(t *testing.T, cd *Codec) {
 
 func verifMsgpC40One(c *kit.Ctx, cd *Codec, cs verifMsgpCase) {
 	ty := cs.pkg.Types[cs.ti]
+	if cs.obj == nil {
+		r := c.Rand(40, uint64(cs.pi), uint64(cs.ti), uint64(cs.ci))
+		g := &verifMsgpGen{r: r, ix: verifMsgpIndexOf(cs.pkg), budget: 40 + r.Intn(200), feat: cs.feat}
+		o := ty.New()
+		g.fill(reflect.ValueOf(o).Elem(), nil, nil, nil, 0)
+		if cs.raw {
+			verifMsgpFixRaw(reflect.ValueOf(o).Elem(), r)
+		}
+		if g.unsupported != "" {
+			c.Count("generator_unsupported_kind", 1)
+			c.Observation("boundary generator met an unsupported kind in %s.%s: %s", cs.pkg.Path, ty.Name, g.unsupported)
+		}
+		cs.obj, cs.gen = o, "boundary"
+	}
 	x := cs.obj
 	hasRaw := cs.raw
 	wit := func(extra map[string]any) map[string]any {
